@@ -40,13 +40,18 @@ def sound(A, label, r, b):
     return [('%s-pos' % label, A.Or(A.Not(A.lt(0, r)), b)), ('%s-neg' % label, A.Or(A.Not(A.lt(r, 0)), A.Not(b)))]
 
 
-def h_sign(f, N, mode):
+def h_sign(f, N, mode, sem=None, io=None):
+    """sem/io: an interface-aware semantics - its values (+-inf, 0 at insensitive predicates) are sound for the Boolean semantics too"""
     f = T(f)
     vs = sorted(variables(f))
 
     def body(env):
         A = env.A
-        s = dt.make_spec('combined', 'out = ' + text(f), vs, f=f)
+        if sem:
+            from .c06 import _sem
+            s = dt.make_spec('combined', 'out = ' + text(f), vs, io=io, semantics=_sem(sem))
+        else:
+            s = dt.make_spec('combined', 'out = ' + text(f), vs, f=f)
         w = dt.trace(env, vs, N)
         got = _run(s, w, N, mode)
         env.observe('out', got)
@@ -234,6 +239,17 @@ def obligations(tier, rng):
         out.append(ob('C07', 'sign', 'sign/%s/%s/N=%d' % (mode, text(g), N), f=g, N=N, mode=mode))
         out.append(ob('C07', 'step', 'step/%s/%s/N=%d' % (mode, text(f), 3), f=f, N=3, mode=mode))
         out.append(ob('C07', 'magnitude', 'magnitude/%s/%s/N=%d' % (mode, text(g), 3), f=g, N=3, mode=mode, wall=300))
+    # interface-aware semantics: whatever they report for a predicate (its robustness, +-inf, 0), a strictly positive / negative verdict is
+    # still sound; strict and non-strict comparisons, samples on the threshold are the solver's business
+    LT, GT = ('lt', X, C), ('gt', X, C)
+    for g in [LT, GT, ('not', LT), ('and', GT, ('geq', Y, C)), ('implies', GT, ('geq', Y, C)), ('once_t', LT, 0, 1), ('historically', GT), ('or', ('leq', X, C), ('gt', Y, C)),
+              ('always_t', GT, 0, 1), ('since', ('geq', X, C), LT)]:
+        for sem in ('output_robustness', 'input_robustness', 'input_vacuity', 'output_vacuity'):
+            for io in ({'x': 'input', 'y': 'output'}, {'x': 'output', 'y': 'input'}):
+                for mode in (['offline'] if refsem.has_future(g) else ['offline', 'online']):
+                    if quick and sem.endswith('vacuity') and (g[0] not in ('lt', 'and') or mode == 'online'):
+                        continue
+                    out.append(ob('C07', 'sign', 'sign-ia/%s/%s/x=%s/%s/N=3' % (mode, sem, io['x'], text(g)), f=g, N=3, mode=mode, sem=sem, io=io))
     # online monitoring of bounded-future formulas (pastified): the verdict reported at step i is about instant i-h
     futb = [o for o in ops if o in ('next', 's_next', 'eventually_t', 'always_t', 'until_t', 'unless_t')]
     pf = [f for f in f1 if refsem.has_future(f) and refsem.hor(f) != refsem.INF]
